@@ -325,7 +325,29 @@ class C10(Prop):
         rho0 = rho.copy()
         order = case["taylor"] or 4
         cfg = EvolveConfig(EvolveMethod.prop_and_compress, taylor_order=order)
-        tp = ThermalProp(mpdm, evolve_config=cfg)
+        if case["rng"] % 2:
+            # the Hamiltonian may be given separately (h_mpo_model): the initial density operator then lives on a model with the
+            # same basis but ANOTHER Hamiltonian (different couplings and site energies), which must play no role
+            import copy
+            h2 = copy.deepcopy(h)
+            h2["J"] = h["J"] * 0.3 + 0.01
+            for k_, m_ in enumerate(h2["mols"]):
+                m_["e"] = m_["e"] + 0.02 * (k_ + 1)
+                for p_ in m_["ph"]:
+                    p_["d"] = p_["d"] * 0.5 + 0.3
+            from renormalizer.mps import MpDm
+            from renormalizer.utils import CompressConfig, CompressCriteria
+            model2 = build_holstein(h2)
+            mpdm2 = MpDm.max_entangled_ex(model2) if case["space"] == "EX" else MpDm.max_entangled_gs(model2)
+            mpdm2.compress_config = CompressConfig(CompressCriteria.fixed, max_bonddim=BIG)
+            same = np.allclose(np.asarray(mpdm2.todense()) * mpdm2.coeff, rho0, atol=1e-13)
+            if same:
+                r.classes.append("thermal.separate_hamiltonian_model")
+                tp = ThermalProp(mpdm2, h_mpo_model=model, evolve_config=cfg)
+            else:
+                tp = ThermalProp(mpdm, evolve_config=cfg)
+        else:
+            tp = ThermalProp(mpdm, evolve_config=cfg)
         tp.evolve(evolve_dt=-1j * tau, nsteps=nstep)
         e_ops, ph_ops = self._observables(model)
         # dense replica of the job: Taylor step with the energy re-centred at the last energy, then normalisation
@@ -433,6 +455,22 @@ class C10(Prop):
         hn = max(np.linalg.norm(hl, 2), 1e-12)
         nstep = case["nstep"]
         tau = case["beta_step"] / hn
+        if case["rng"] % 2:
+            # an initial density operator that does not commute with the propagator (pure state in density-operator form): tells
+            # P rho from rho P, which coincide for the maximally entangled start
+            from renormalizer.mps import Mps, MpDm
+            from renormalizer.utils import CompressConfig, CompressCriteria
+            try:
+                np.random.seed(case["rng"])
+                psi = Mps.random(model, 1 if space == "EX" else 0, 3, percent=1.0)
+                cand = MpDm.from_mps(psi)
+                d_ = np.asarray(cand.todense())
+                if np.all(np.isfinite(d_)) and np.linalg.norm(d_) > 1e-8:
+                    cand.compress_config = CompressConfig(CompressCriteria.fixed, max_bonddim=BIG)
+                    mpdm = cand
+                    r.classes.append("thermal_exact.pure_state_start")
+            except (FloatingPointError, ZeroDivisionError, ValueError, AssertionError, IndexError):
+                pass
         rho0 = np.asarray(mpdm.todense()) * mpdm.coeff
         tp = ThermalProp(mpdm, exact=True, space=space)
         tp.evolve(evolve_dt=-1j * tau, nsteps=nstep)
